@@ -12,6 +12,10 @@ Cells (file, function, shared container):
   mako/lexer.py     Lexer.match                 _regexp_cache[(regexp, flags)]
   mako/lookup.py    TemplateLookup.adjust_uri   self._uri_cache[key]
   mako/template.py  ModuleInfo.__init__         self._modules[...]
+  mako/runtime.py   ModuleNamespace.__init__    the module of <%namespace module="…"/>: first use = first import.  The
+                    module object is complete for other threads only if it is obtained through the import machinery
+                    (`__import__` / `importlib.import_module`, which hold the per-module import lock until the module body
+                    has run); a read of `sys.modules` hands out a module another thread is still initialising.
 """
 from __future__ import annotations
 
@@ -67,6 +71,28 @@ def _mutates(stmt, names):
                         and t.value.id in names:
                     return True
     return False
+
+
+def imports_through_lock(fn, what):
+    """True iff the function obtains modules by `__import__(…)` / `importlib.import_module(…)` and never reads
+    `sys.modules`"""
+    has_import = False
+    reads_sys_modules = False
+    for node in ast.walk(fn):
+        if isinstance(node, ast.Call):
+            f = node.func
+            if isinstance(f, ast.Name) and f.id == "__import__":
+                has_import = True
+            if isinstance(f, ast.Attribute) and f.attr == "import_module":
+                has_import = True
+        if isinstance(node, ast.Attribute) and node.attr == "modules" and isinstance(node.value, ast.Name) \
+                and node.value.id == "sys":
+            reads_sys_modules = True
+        if isinstance(node, (ast.Import, ast.ImportFrom)):
+            has_import = has_import or True
+    if not has_import and not reads_sys_modules:
+        raise RegenError("%s: no longer imports a module" % what)
+    return has_import and not reads_sys_modules
 
 
 def stored_complete(fn, container, what):
@@ -139,7 +165,11 @@ def gen(repo) -> str:
     cells.append(("template.ModuleInfo.__init__ self._modules[...]",
                   stored_complete(find_func(mi.body, "__init__", "mako/template.py"), "_modules",
                                   "ModuleInfo.__init__")))
-    lines = [HEADER % "mako/util.py, mako/cache.py, mako/lexer.py, mako/lookup.py, mako/template.py (shared memo cells)",
+    tr = parse(repo, "mako/runtime.py")
+    mn = find_class(tr, "ModuleNamespace", "mako/runtime.py")
+    cells.append(("runtime.ModuleNamespace.__init__ module obtained through the import lock (__import__, not sys.modules)",
+                  imports_through_lock(find_func(mn.body, "__init__", "mako/runtime.py"), "ModuleNamespace.__init__")))
+    lines = [HEADER % "mako/util.py, mako/cache.py, mako/lexer.py, mako/lookup.py, mako/template.py, mako/runtime.py (shared memo cells)",
              "namespace MakoModel.Generated.Conc",
              "",
              "/-- the lazily initialised shared cells and, for each, whether the object is complete when the statement",
